@@ -141,12 +141,12 @@ def inlineBuiltin : Expr → Expr
   | .rule n m sm b => if n != "EOI" then b else .rule n m sm b
   | e => e
 
-/-- `inline_silent_rules`; `rules[expr.value]` on an undefined name raises `KeyError`
-    (`none`) -/
+/-- `inline_silent_rules`; `rules.get(expr.value)`: a reference to an undefined rule is left
+    alone -/
 def inlineSilent (rules : List Rule) : Expr → Option Expr
   | .ident n tag =>
     match rules.find? (·.name == n) with
-    | none => none
+    | none => some (.ident n tag)
     | some r => if hasBit r.mod SILENT && tag.isNone then some r.body else some (.ident n tag)
   | e => some e
 
